@@ -255,3 +255,26 @@ func LowerBound(live []Rec, q int64) int {
 	}
 	return len(live)
 }
+
+// RealKeys: two pairs of distinct 8-byte keys with equal FNV-1a-64 hashes (real
+// collisions) and an unrelated key; used where a counterexample must be
+// reproducible natively.
+var RealKeys = [][]byte{
+	{0x21, 0x6c, 0xa7, 0x92, 0x9c, 0x97, 0x91, 0xca},
+	{0x30, 0xde, 0x95, 0xee, 0x30, 0xd5, 0xce, 0x4a},
+	{0x31, 0x62, 0xc9, 0x80, 0x05, 0xa6, 0x8d, 0x30},
+	{0x8e, 0x62, 0xb6, 0x8d, 0x7d, 0xdd, 0xbe, 0xab},
+	{1, 2, 3, 4, 5, 6, 7, 8},
+}
+
+// UseRealKeys replaces every non-empty key of the log by a key chosen (case
+// split) among the first n entries of RealKeys. Call before Build.
+func (l *Log) UseRealKeys(n int) {
+	for si := range l.Segs {
+		for ri := range l.Segs[si].Recs {
+			if len(l.Segs[si].Recs[ri].Key) > 0 {
+				l.Segs[si].Recs[ri].Key = append([]byte{}, RealKeys[vrt.Choose("rk", n)]...)
+			}
+		}
+	}
+}
